@@ -1,2 +1,11 @@
-//! Independent reference models (written from the CQL v4 spec / ScyllaDB algorithms; shares no code with the driver).
-pub mod shard;
+//! Independent reference models (written from the CQL v4 spec / ScyllaDB & Cassandra algorithms;
+//! shares no code with the driver). Deliberately boring: vectors and linear scans.
+pub mod binder; // C16: reference by-name / ordered binder for derived structs
+pub mod ksname; // C20: keyspace identifier grammar
+pub mod murmur3; // C03: Murmur3 x64-128 Cassandra variant, composite key framing, CDC token
+pub mod placement; // C04/C05/C12: SimpleStrategy / NetworkTopologyStrategy replica placement
+pub mod proto; // C08/C09: CQL v4 frame codec (request parser, response encoder), LZ4 block / Snappy raw
+pub mod retry; // C06: retry safety table
+pub mod shard; // C11
+pub mod tablets; // C15: latest-wins interval map
+pub mod value; // C01/C17: CQL value codec for every type
